@@ -648,6 +648,9 @@ func (env *Env) indexVal(base, idx Val, x ast.Node) Val {
 		// map lookup by key (contracts use constant string keys)
 		fr := &Frame{e: e}
 		v, _ := fr.mapLookup(env.st, base, idx, mt.Elem())
+		if inv := e.typeInv(v, env.st); !strings.Contains(inv, "?q") {
+			e.assume("true", inv) // stored references are well formed
+		}
 		return v
 	}
 	if base.T == tStream {
@@ -862,6 +865,12 @@ func (env *Env) evalCall(x *ast.CallExpr) Val {
 		case "ref":
 			v := env.eval(x.Args[0])
 			return Val{T: types.Typ[types.UnsafePointer], C: []string{v.C[0]}}
+		case "owner":
+			// the allocated object a pointer points into (itself, or the
+			// object an embedded field belongs to)
+			v := env.eval(x.Args[0])
+			e.fid("0", 0)
+			return Val{T: types.Typ[types.UnsafePointer], C: []string{ite(sx("<", v.C[0], "0"), sx("fid.ref", v.C[0]), v.C[0])}}
 		case "int", "int64", "uint64", "uint16", "byte", "uint8", "uint32", "int32", "uint":
 			v := env.eval(x.Args[0])
 			t := types.Universe.Lookup(id.Name).Type()
@@ -884,12 +893,62 @@ func (env *Env) evalCall(x *ast.CallExpr) Val {
 			v := env.eval(x.Args[0])
 			s, _ := strconv.Unquote(x.Args[1].(*ast.BasicLit).Value)
 			return Val{T: env.namedType(s, x), C: []string{v.C[0]}}
+		case "iface":
+			// the interface value boxing a concrete value
+			v := env.eval(x.Args[0])
+			s, _ := strconv.Unquote(x.Args[1].(*ast.BasicLit).Value)
+			return Val{T: env.namedType(s, x), C: []string{e.makeIface(v)}}
+		case "extres":
+			// extres("<extern key>", i, args...): result i of a functional extern applied to args
+			key, _ := strconv.Unquote(x.Args[0].(*ast.BasicLit).Value)
+			idx, _ := strconv.Atoi(x.Args[1].(*ast.BasicLit).Value)
+			fc := e.db.Funcs[key]
+			if fc == nil || !fc.Functional {
+				env.fail(x, "extres: %s is not a functional extern", key)
+			}
+			var argc, sorts []string
+			for _, a := range x.Args[2:] {
+				v := env.eval(a)
+				argc = append(argc, v.C...)
+				sorts = append(sorts, e.layout(v.T)...)
+			}
+			rt := env.extResultType(key, idx, x)
+			r := Val{T: rt}
+			for ci, so := range e.layout(rt) {
+				fn := fmt.Sprintf("ext.%s.%d.%d", sanitize(key), idx, ci)
+				e.declFun(fn, "("+strings.Join(sorts, " ")+") "+so)
+				r.C = append(r.C, sx(fn, argc...))
+			}
+			return r
 		case "nilref":
 			return Val{T: types.Typ[types.UnsafePointer], C: []string{"0"}}
 		case "asPtr":
 			v := env.eval(x.Args[0])
 			s, _ := strconv.Unquote(x.Args[1].(*ast.BasicLit).Value)
 			return Val{T: env.namedType(s, x), C: []string{v.C[0]}}
+		case "haskey":
+			// haskey(m, key): key is present in map m
+			m := env.eval(x.Args[0])
+			k := env.eval(x.Args[1])
+			mt, ok := m.T.Underlying().(*types.Map)
+			if !ok {
+				env.fail(x, "haskey of non-map")
+			}
+			fr := &Frame{e: e}
+			_, has := fr.mapLookup(env.st, m, k, mt.Elem())
+			return Val{T: boolT, C: []string{has}}
+		case "same":
+			// identical representation (every component equal)
+			a := env.eval(x.Args[0])
+			b := env.eval(x.Args[1])
+			if len(a.C) != len(b.C) {
+				env.fail(x, "same: different layouts")
+			}
+			var ps []string
+			for i := range a.C {
+				ps = append(ps, eq(a.C[i], b.C[i]))
+			}
+			return Val{T: boolT, C: []string{and(ps...)}}
 		case "streq":
 			a := env.eval(x.Args[0])
 			b := env.eval(x.Args[1])
@@ -1044,4 +1103,18 @@ func isBoolExpr(x ast.Expr) bool {
 		}
 	}
 	return false
+}
+
+// extResultType: declared result types of the few functional externs used in
+// contracts through extres.
+func (env *Env) extResultType(key string, idx int, x ast.Node) types.Type {
+	switch key {
+	case "(context.Context).Deadline":
+		if idx == 1 {
+			return types.Typ[types.Bool]
+		}
+		return env.namedType("time.Time", x)
+	}
+	env.fail(x, "extres: unknown result type for %s", key)
+	return nil
 }
